@@ -168,6 +168,7 @@ func runEpisode(prop *Property, cfg Cfg, prog *Program, seed uint64, replay []ui
 	ep.W = wd
 	opts := simOptions(cfg, seed, numSites, replay, strict)
 	opts.OnFinished = raceFence
+	opts.TraceSwitches = *fTrace || *fMode == "replay"
 	sim := simrt.New(opts)
 	rt := &rootTask{wd: wd, ep: ep, hook: prop.Hook}
 	ep.Res = sim.Run(rt.run)
